@@ -76,6 +76,7 @@ type FEnc struct {
 	safety       bool
 	checked      bool // arithmetic overflow obligations
 	phiSubst     map[*ssa.Phi]*Val
+	roCapture    map[*ssa.Alloc]bool
 	loops        map[*ssa.BasicBlock]*loopInfo
 	domDepth     map[*ssa.BasicBlock]int
 	epochN       int
@@ -319,10 +320,16 @@ func (e *FEnc) reify(p *Ptr) string {
 			nm := fmt.Sprintf("fldptr_%s_%d", sn, el.Field)
 			e.d.add("fn:"+nm, fmt.Sprintf("(declare-fun %s (Ref) Ref)", nm))
 			base = fmt.Sprintf("(%s %s)", nm, base)
+			if !e.noFacts && len(base) < 200 {
+				e.fact(not(eq(base, "nil_ref"))) // the address of a field is never nil
+			}
 			ty = structOf(ty).Field(el.Field).Type()
 		} else {
 			e.d.add("fn:idxptr", "(declare-fun idxptr (Ref Int) Ref)")
 			base = fmt.Sprintf("(idxptr %s %s)", base, el.Index)
+			if !e.noFacts && len(base) < 200 {
+				e.fact(not(eq(base, "nil_ref")))
+			}
 			if at, ok := ty.Underlying().(*types.Array); ok {
 				ty = at.Elem()
 			}
@@ -585,7 +592,7 @@ func (e *FEnc) havocSet(st *State, ids map[int]bool) {
 func (e *FEnc) havocLeaked(st *State) {
 	for _, id := range sortedInts(st.cells) {
 		a := e.allocs[id]
-		if st.leaked[id] && !a.Weak {
+		if st.leaked[id] && !a.Weak && !e.readOnlyCapture(a) {
 			st.cells[id] = e.newVal(a.Ty, fmt.Sprintf("hv_%s", mangle(a.Name)))
 		}
 	}
@@ -1090,9 +1097,36 @@ func (e *FEnc) run() {
 		}
 	}
 	for _, fv := range fn.FreeVars {
+		// A variable captured by reference is private to the defining function and its function literals: inside the
+		// literal it is a local cell with an arbitrary entry value (not a heap location an unknown callee could write).
+		if pt, ok := fv.Type().Underlying().(*types.Pointer); ok && capturedByRef(fn, fv) {
+			pv := e.newAlloc(pt.Elem(), nil, fv.Name(), st)
+			cv := e.newVal(pt.Elem(), "cv_"+mangle(fv.Name()))
+			st.cells[pv.P.Alloc] = cv
+			e.vals[fv] = pv
+			// a captured parameter of the enclosing function that is never reassigned still has the properties
+			// assumed of that parameter there (a pointer receiver is non-nil; trusted non-nil parameter types)
+			if par := spilledParam(fn, fv); par != nil && cv.T != "" {
+				pf := par.Parent()
+				if pf.Signature.Recv() != nil && len(pf.Params) > 0 && pf.Params[0] == par {
+					if _, ok := par.Type().Underlying().(*types.Pointer); ok {
+						e.fact(not(eq(cv.T, "nil_ref")))
+					}
+				}
+				ts := types.TypeString(par.Type(), nil)
+				for _, nn := range e.eng.cs.NonNilParams {
+					if ts == nn {
+						e.fact(not(eq(cv.T, e.nilOf(cv.Sort))))
+					}
+				}
+			}
+			continue
+		}
 		v := e.newVal(fv.Type(), "fv_"+mangle(fv.Name()))
 		e.vals[fv] = v
-		e.fact(not(eq(v.T, "nil_ref")))
+		if nl := e.nilOf(v.Sort); v.T != "" && nl != "" {
+			e.fact(not(eq(v.T, nl))) // a pointer, map, function or interface captured by value: assumed non-nil (listed)
+		}
 	}
 	if fn.Signature.Recv() != nil && len(fn.Params) > 0 {
 		if _, ok := fn.Params[0].Type().Underlying().(*types.Pointer); ok {
@@ -1605,9 +1639,14 @@ func (e *FEnc) enterBlock(b *ssa.BasicBlock) *State {
 			}
 		}
 	}
+	leakSafe := e.loopLeakSafe(li)
 	for _, id := range sortedInts(hs.cells) {
 		a := e.allocs[id]
-		if a.Instr != nil && mod[a.Instr] || (hs.leaked[id] && callsOrHeap) || ghostMod[id] {
+		_, isArr := a.Ty.(*types.Array)
+		if a.Ty != nil {
+			_, isArr = a.Ty.Underlying().(*types.Array)
+		}
+		if a.Instr != nil && mod[a.Instr] || (hs.leaked[id] && callsOrHeap && (!leakSafe || isArr) && !e.readOnlyCapture(a)) || ghostMod[id] {
 			hs.cells[id] = e.freshCell(a, "lc")
 		}
 	}
@@ -1897,6 +1936,8 @@ func (e *FEnc) callKeepsHeap(cc *ssa.CallCommon) bool {
 		}
 	} else if fn := cc.StaticCallee(); fn != nil {
 		fc = e.eng.contractOf(fn)
+	} else {
+		fc = e.funcTypeContract(cc)
 	}
 	return fc != nil && (fc.Pure || fc.NoHavoc)
 }
@@ -1995,7 +2036,34 @@ func (e *FEnc) pathMergedVar(st *State, name string, blk *ssa.BasicBlock, idx in
 
 // globalInitFact: a package-level variable initialised by a call of a pure function on constants
 // (var re = regexp.MustCompile("...")) equals that application (variables are not reassigned: assumption).
+// Library sentinel errors: each is the result of its own errors.New call, hence non-nil and distinct from the others
+// in this list (aliases such as os.ErrNotExist = fs.ErrNotExist are deliberately not listed).
+var sentinelErrors = []string{"io/fs.SkipDir", "io/fs.SkipAll", "io.EOF", "io.ErrUnexpectedEOF", "io.ErrShortWrite", "io.ErrShortBuffer"}
+
+func (e *FEnc) sentinelFacts(gv *types.Var, nm string) {
+	if gv.Pkg() == nil || e.noFacts || e.factDone["sentinel:"+nm] {
+		return
+	}
+	full := gv.Pkg().Path() + "." + gv.Name()
+	for _, s := range sentinelErrors {
+		if s != full {
+			continue
+		}
+		e.factDone["sentinel:"+nm] = true
+		e.fact(not(eq(nm, "nil_iface")))
+		for _, o := range sentinelErrors {
+			if o == full {
+				continue
+			}
+			on := "G_" + mangle(o)
+			e.d.add("c:"+on, fmt.Sprintf("(declare-const %s Iface)", on))
+			e.fact(not(eq(nm, on)))
+		}
+	}
+}
+
 func (e *FEnc) globalInitFact(gv *types.Var, nm string) {
+	e.sentinelFacts(gv, nm)
 	if e.factDone["ginit:"+nm] || e.noFacts {
 		return
 	}
@@ -2081,4 +2149,218 @@ func sortedInts[V any](m map[int]V) []int {
 	}
 	sort.Ints(ks)
 	return ks
+}
+
+// capturedByRef: the free variable is the address of a variable of the enclosing function (go/ssa binds an Alloc),
+// as opposed to a pointer value captured by value.
+func capturedByRef(fn *ssa.Function, fv *ssa.FreeVar) bool {
+	par := fn.Parent()
+	if par == nil {
+		return false
+	}
+	idx := -1
+	for i, f := range fn.FreeVars {
+		if f == fv {
+			idx = i
+		}
+	}
+	if idx < 0 {
+		return false
+	}
+	found, byRef := false, true
+	for _, b := range par.Blocks {
+		for _, in := range b.Instrs {
+			mc, ok := in.(*ssa.MakeClosure)
+			if !ok || mc.Fn != ssa.Value(fn) || idx >= len(mc.Bindings) {
+				continue
+			}
+			found = true
+			switch bv := mc.Bindings[idx].(type) {
+			case *ssa.Alloc:
+			case *ssa.FreeVar:
+				if !capturedByRef(par, bv) {
+					byRef = false
+				}
+			default:
+				byRef = false
+			}
+		}
+	}
+	return found && byRef
+}
+
+// spilledParam: the captured variable is a parameter of the enclosing function whose only assignment is the spill
+// at function entry (neither the function nor any of its literals assigns to it again).
+func spilledParam(fn *ssa.Function, fv *ssa.FreeVar) *ssa.Parameter {
+	par := fn.Parent()
+	if par == nil {
+		return nil
+	}
+	idx := -1
+	for i, f := range fn.FreeVars {
+		if f == fv {
+			idx = i
+		}
+	}
+	var alloc *ssa.Alloc
+	for _, b := range par.Blocks {
+		for _, in := range b.Instrs {
+			if mc, ok := in.(*ssa.MakeClosure); ok && mc.Fn == ssa.Value(fn) && idx >= 0 && idx < len(mc.Bindings) {
+				switch bv := mc.Bindings[idx].(type) {
+				case *ssa.Alloc:
+					alloc = bv
+				case *ssa.FreeVar:
+					return spilledParam(par, bv)
+				}
+			}
+		}
+	}
+	if alloc == nil || alloc.Referrers() == nil {
+		return nil
+	}
+	var param *ssa.Parameter
+	stores := 0
+	var scan func(addr ssa.Value) bool
+	scan = func(addr ssa.Value) bool {
+		refs := addr.Referrers()
+		if refs == nil {
+			return false
+		}
+		for _, r := range *refs {
+			switch x := r.(type) {
+			case *ssa.Store:
+				if x.Addr == addr {
+					stores++
+					if p, ok := x.Val.(*ssa.Parameter); ok {
+						param = p
+					}
+				}
+			case *ssa.MakeClosure:
+				lit, ok := x.Fn.(*ssa.Function)
+				if !ok {
+					return false
+				}
+				for i, bnd := range x.Bindings {
+					if bnd == addr && i < len(lit.FreeVars) {
+						if !scan(lit.FreeVars[i]) {
+							return false
+						}
+					}
+				}
+			case *ssa.UnOp, *ssa.DebugRef:
+			default:
+				return false // address used in some other way
+			}
+		}
+		return true
+	}
+	if !scan(alloc) || stores != 1 || param == nil {
+		return nil
+	}
+	return param
+}
+
+// loopLeakSafe: nothing in the loop can write a scalar or struct local whose address has escaped — no store through
+// a pointer that is not rooted in a local of this function, and no call other than builtins that only write slice
+// elements / map entries and callees whose contract says the same (or that they write nothing).
+func (e *FEnc) loopLeakSafe(li *loopInfo) bool {
+	var root func(v ssa.Value) bool
+	root = func(v ssa.Value) bool {
+		switch x := v.(type) {
+		case *ssa.Alloc:
+			return true
+		case *ssa.FieldAddr:
+			return root(x.X)
+		case *ssa.IndexAddr:
+			return root(x.X)
+		}
+		return false
+	}
+	for b := range li.body {
+		for _, in := range b.Instrs {
+			switch x := in.(type) {
+			case *ssa.Store:
+				if !root(x.Addr) {
+					return false
+				}
+			case *ssa.Call:
+				cc := x.Common()
+				if bi, ok := cc.Value.(*ssa.Builtin); ok {
+					switch bi.Name() {
+					case "append", "copy", "delete", "len", "cap", "min", "max":
+						continue
+					}
+					return false
+				}
+				if e.callKeepsHeap(cc) {
+					continue
+				}
+				if fc := e.calleeContract(cc); fc != nil && len(fc.Modifies) > 0 && onlyElemsOrMaps(fc.Modifies) {
+					continue
+				}
+				return false
+			case *ssa.Defer, *ssa.Go, *ssa.Send, *ssa.Select:
+				return false
+			}
+		}
+	}
+	return true
+}
+
+// readOnlyCapture: the local's address goes nowhere except into function literals that only read the captured
+// variable (and loads/stores of the function itself). Code called from here can then not change it: a callee reaches
+// a captured variable only by running a literal, and none of them writes it.
+func (e *FEnc) readOnlyCapture(a *AllocInfo) bool {
+	if a.Instr == nil {
+		return false
+	}
+	if v, ok := e.roCapture[a.Instr]; ok {
+		return v
+	}
+	captured := false
+	var scan func(addr ssa.Value, top bool) bool
+	scan = func(addr ssa.Value, top bool) bool {
+		refs := addr.Referrers()
+		if refs == nil {
+			return false
+		}
+		for _, r := range *refs {
+			switch x := r.(type) {
+			case *ssa.Store:
+				if x.Addr != addr {
+					return false // the address itself is stored somewhere
+				}
+				if !top {
+					return false // a literal assigns the captured variable
+				}
+			case *ssa.MakeClosure:
+				lit, ok := x.Fn.(*ssa.Function)
+				if !ok {
+					return false
+				}
+				captured = true
+				for i, bnd := range x.Bindings {
+					if bnd == addr && i < len(lit.FreeVars) {
+						if !scan(lit.FreeVars[i], false) {
+							return false
+						}
+					}
+				}
+			case *ssa.UnOp:
+				if x.Op != token.MUL {
+					return false
+				}
+			case *ssa.DebugRef:
+			default:
+				return false
+			}
+		}
+		return true
+	}
+	ok := scan(a.Instr, true) && captured
+	if e.roCapture == nil {
+		e.roCapture = map[*ssa.Alloc]bool{}
+	}
+	e.roCapture[a.Instr] = ok
+	return ok
 }
